@@ -219,7 +219,7 @@ func oneLine(s string) string {
 // minimize greedily reduces c while run() keeps failing with the same kind and the
 // configuration stays inside the precondition. The result is 1-minimal for: removing a
 // requirement / an ignore entry / name / version, replacing a field by its benign value,
-// deleting one rune of a non-benign string.
+// deleting one rune of a non-benign string (never down to the empty string).
 func minimize(c project.Config, kind, file string, runs *int64) (project.Config, result) {
 	cur := clone(c)
 	var curRes result
@@ -245,6 +245,11 @@ func minimize(c project.Config, kind, file string, runs *int64) (project.Config,
 		rs := []rune(s)
 		for i := range rs {
 			t := string(rs[:i]) + string(rs[i+1:])
+			if t == "" {
+				// the empty string is a class of its own (absent name/version, empty key): a
+				// failure of a non-empty string is never attributed to it
+				continue
+			}
 			cand := clone(cur)
 			if !set(&cand, t) {
 				continue
